@@ -9,7 +9,7 @@ translator / proofs), the verdict line, the FAIL signatures and whether a concre
 import os, re, subprocess, sys, time
 
 ROOT = os.path.dirname(os.path.dirname(os.path.abspath(__file__)))
-WT = "/tmp/scratch/st-c03/wt"
+WT = os.environ.get("C03_MUT_WT", "/tmp/scratch/st2-c03/wtm")
 G, B = "samplers/gibbs.py", "samplers/base.py"
 
 POP_ALPHA = """                    (new_regularity - previous_regularity) * temperature_inv
@@ -61,6 +61,34 @@ MUT = {
                                        "the fit algorithm calls the samplers with temperature_inv = 1 whatever its annealing temperature"),
     "M22_fit_passes_temperature_not_inverse": ("algo/fit/mcmc_saem.py", "sample(state, temperature_inv=self.temperature_inv)", "sample(state, temperature_inv=self.temperature)",
                                                "the fit algorithm passes the temperature instead of its inverse"),
+    # ---- round 2: non-finite / extreme decisions (exp(-D) = +inf, 0, nan in the state's dtype)
+    "M23_seed2_nonfinite_alpha_discarded_without_draw": (G, "            accepted = self._metropolis_step(alpha)\n",
+        "            if not torch.isfinite(alpha):\n                state.revert()\n                continue\n            accepted = self._metropolis_step(alpha)\n",
+        "seed C03-1 of round 2: population proposal with non-finite alpha (exp overflow of a > 88.7-nat improvement, nan) reverted before any draw"),
+    "M24_pop_alpha_clamped_draw_skipped": (G, "            accepted = self._metropolis_step(alpha)\n",
+        "            alpha = torch.clamp(alpha, max=1.0)\n            accepted = torch.tensor(True) if alpha >= 1 else self._metropolis_step(alpha)\n",
+        "population: alpha clamped to 1 before the draw, the draw skipped when alpha >= 1"),
+    "M25_pop_nan_to_num_on_alpha": (G, "            accepted = self._metropolis_step(alpha)\n",
+        "            alpha = torch.nan_to_num(alpha, nan=1.0)\n            accepted = self._metropolis_step(alpha)\n",
+        "population: nan alpha (non-finite likelihood on both sides) read as 1: the proposal is accepted"),
+    "M26_ind_nonfinite_alpha_rows_rejected": (G, "        accepted = self._group_metropolis_step(alpha)\n",
+        "        accepted = self._group_metropolis_step(alpha) & torch.isfinite(alpha)\n",
+        "individual: rows whose alpha is not finite (exp overflow of a large improvement) masked as rejected"),
+    "M27_pop_inf_alpha_rejected_after_draw": (G, "            accepted = self._metropolis_step(alpha)\n",
+        "            accepted = self._metropolis_step(alpha) & torch.isfinite(alpha)\n",
+        "population: the draw is made but a proposal whose alpha overflowed is rejected"),
+    "M28_ind_nan_to_num_on_exponent": (G, IND_ALPHA, IND_ALPHA.replace("        accepted = self._group_metropolis_step(alpha)", "        alpha = torch.nan_to_num(alpha, nan=1.0, posinf=1.0)\n        accepted = self._group_metropolis_step(alpha)"),
+        "individual: nan alpha read as 1 (accepted by every draw)"),
+    "M29_alpha_floored": (B, "        return torch.rand(()) < alpha\n", "        return torch.rand(()) < torch.clamp(torch.as_tensor(alpha), min=1e-30)\n",
+        "scalar Metropolis step: alpha floored at 1e-30, so u = 0 accepts an impossible (D = +inf) proposal"),
+    "M30_ind_alpha_floored": (B, "accepted = torch.rand(alpha.shape) < alpha", "accepted = torch.rand(alpha.shape) < torch.clamp(alpha, min=1e-30)",
+        "group Metropolis step: alpha floored at 1e-30, so u = 0 accepts an impossible (D = +inf) proposal"),
+    "M31_pop_large_improvement_capped": (G, "            accepted = self._metropolis_step(alpha)\n",
+        "            accepted = self._metropolis_step(alpha) if alpha < 1e12 else self._metropolis_step(alpha * 0)\n",
+        "population: a finite but large alpha (> 1e12, improvement of more than 27.6 nats) treated as a numerical accident and rejected"),
+    "M32_ind_exponent_in_half_precision_guarded": (G, "        accepted = self._group_metropolis_step(alpha)\n",
+        "        alpha = torch.where(alpha > 3e38, torch.zeros_like(alpha), alpha)\n        accepted = self._group_metropolis_step(alpha)\n",
+        "individual: alpha above the single-precision range (inf) zeroed: the largest improvements are rejected"),
 }
 # a real two-coordinate block for the coordinate-wise Gibbs sampler on vectors: coordinate i+1 moves with coordinate i
 MUT["M07_gibbs_block_of_two_coordinates"] = (
